@@ -92,8 +92,8 @@ package archiver
 //@   after WithValue(*): attached = feedbackChan
 //@   local pendingFb int = 0
 //@   after Do(*): sentWith = attached; fbWaited = 0; pendingFb = ite(opResult1 == nil && !config.config.WARCWriteAsync, 1, 0); reported = ite(opResult1 == nil, 0, 1)
-//@   loop retry invariant [written-before-retry] @C02 pendingFb == 0 // C02: with synchronous WARC writing every response the crawler fetched is stored before the seed is finished (a response that is retried has been written - its feedback received - before the next attempt)
-//@   ensures [written-before-return] @C02 pendingFb == 0 // C02: with synchronous WARC writing, by the time a seed is reported finished every response the crawler fetched for it is stored (the fetch of a node returns only after the WARC writer signalled for every response it received, also when it gives up)
+//@   loop retry invariant [written-before-retry] @C02,C04 pendingFb == 0 // C02: with synchronous WARC writing every response the crawler fetched is stored before the seed is finished (a response that is retried has been written - its feedback received - before the next attempt)
+//@   ensures [written-before-return] @C02,C04 pendingFb == 0 // C02: with synchronous WARC writing, by the time a seed is reported finished every response the crawler fetched for it is stored (the fetch of a node returns only after the WARC writer signalled for every response it received, also when it gives up)
 //@   assert recv(*): [closed-before-wait] @C16,C03 http.nOpened() - io.nCloses() <= old(http.nOpened() - io.nCloses()) // C16: goroutines ... do not grow with the number of seeds / C03: returns within bounded time (the fetch waits for the WARC writer only after the response it was handed has been closed: the writer gets the exchange when the connection closes, so a wait before the close never ends)
 //@   assert recv(*): [waits-own] @C02 feedbackChan == sentWith && feedbackChan != nil // C02: archive() blocks on the feedback channel before SetStatus(ItemArchived) (the channel carried by the request that was actually sent)
 //@   assert SetStatus(*): [own-node] @C01 arg0 == item // C01: each stage only works on nodes at the tree's max depth (the fetch goroutine of a node records the outcome on that node, never on the seed or a sibling)
